@@ -608,6 +608,7 @@ pub fn run_c16b(ctx: &Ctx) {
     ctlrun::drive(ctx, if ctx.quick() { 80_000 } else { 1_500_000 }, C16_CFG, "C16B", false, false, 0, 1616);
     readonly_routes(ctx);
     attributes_from_functions(ctx);
+    allexport_slice(ctx);
 }
 
 /// `readonly` and `export` inside a function (any depth) act on the variable that is visible there:
@@ -683,6 +684,66 @@ fn attributes_from_functions(ctx: &Ctx) {
                     format!("attribute-from-function:{}", body.split(' ').next().unwrap_or("")),
                     format!("`{body}` inside a function: {}\nscript:\n{script}stderr:\n{}", problems.join("; "), out.err()),
                 );
+            }
+        }
+    }
+}
+
+/// `allexport`: every form of assignment performed while the option is on gives the variable the
+/// export attribute (XCU 2.14 set -a: plain assignments, the `for` variable, `${v=w}`, `$((v=1))`,
+/// `read`, `getopts`); with the option off none of them does, and turning it off again does not
+/// take the attribute away.
+fn allexport_slice(ctx: &Ctx) {
+    // (how the variable v gets its value, the value)
+    let forms: [(&str, &str); 9] = [
+        ("v=1", "1"),
+        ("for v in a b; do :; done", "b"),
+        (": ${v=dflt}", "dflt"),
+        (": ${v:=dflt}", "dflt"),
+        (": $((v=7))", "7"),
+        ("read v <<E\nline\nE", "line"),
+        ("getopts ab v -a", "a"),
+        ("v=1; v=2", "2"),
+        ("for v in x; do for w in y; do :; done; done", "x"),
+    ];
+    let contexts = ["FORM", "{ FORM\n}", "f() { FORM\n}; f", "if true; then FORM\nfi", "eval 'FORM'"];
+    for (form, value) in forms {
+        for (ci, cx) in contexts.iter().enumerate() {
+            // a here-document cannot sit inside the eval string / one-line contexts as rendered here
+            if form.contains("<<") && ci != 0 {
+                continue;
+            }
+            for on in [true, false] {
+                let script = format!("unset v w\n{}\n{}\npvar during v\nset +a\npvar after v\n", if on { "set -a" } else { "set +a" }, cx.replace("FORM", form));
+                let out = crate::vsh::run_script(&script, Strategy::Fifo);
+                ctx.eval();
+                ctx.count("allexport_cases", 1);
+                let mut problems = Vec::new();
+                for tag in ["during", "after"] {
+                    match out.events.iter().find(|e| e.kind == "probe" && e.args.first().map(|a| a.as_str()) == Some(tag)) {
+                        None => problems.push(format!("no look at `{tag}`")),
+                        Some(e) => {
+                            let (val, exp) = (e.args.get(1).cloned().unwrap_or_default(), e.args.get(2).map(|s| s == "exported").unwrap_or(false));
+                            if val != value {
+                                problems.push(format!("{tag}: $v is {val:?}, expected {value:?}"));
+                            }
+                            if exp != on {
+                                problems.push(format!("{tag}: exported = {exp}, expected {on}"));
+                            }
+                        }
+                    }
+                }
+                if out.end != crate::vsh::End::Done {
+                    problems.push(format!("did not terminate: {:?}", out.end));
+                }
+                if problems.is_empty() {
+                    ctx.nontrivial_str(&format!("allexport|{form}|{ci}|{on}"));
+                } else {
+                    ctx.violation(
+                        format!("allexport:{}", form.split(' ').next().unwrap_or("")),
+                        format!("`{form}` with allexport {}: {}\nscript:\n{script}stderr:\n{}", if on { "on" } else { "off" }, problems.join("; "), out.err()),
+                    );
+                }
             }
         }
     }
